@@ -13,6 +13,7 @@ pub mod sched;
 pub mod seq;
 pub mod setconc;
 pub mod setseq;
+pub mod strictser;
 pub mod types;
 
 use runner::{Ctx, ShardOut, Tier};
